@@ -302,6 +302,12 @@ def parse_req(rq):
         finish_parse(R, c)
         return R
     ftol = c.dbl()
+    if op == "c11.nmre":
+        R = dict(op="c11.nm1", ftol=ftol, nested=True)
+        R["start"] = c.dbls(); R["delta"] = c.dbl()
+        R["ftol_in"] = c.dbl(); R["t0"] = c.dbls(); R["delta_in"] = c.dbl()
+        finish_parse(R, c)
+        return R
     if op == "c11.nmseq":
         n = int(c.tok())
         members = [parse_member("c11." + c.tok(), ftol, c) for _ in range(n)]
@@ -535,6 +541,144 @@ def gen_nd(rng, n, R, ctx, maxdim=6):
     R.append(req_nd("c11.nm1", 1e-5, "%s %s" % (lst([1000.0, 1000.0]), hx(1e-3)), q2, meta_tokens("quadN", [0.0, 0.0], 0.0) + ["dim=2"]))
 
 
+def nm_float(f, pp, ftol, maxit=300):
+    """double-precision replica of Minimization::minimize (same operation order), used by the GENERATOR only to learn the
+    highest / lowest vertex value at the head of every pass: [(y_hi, y_lo), ...]"""
+    p = [list(r) for r in pp]
+    m, n = len(p), len(p[0])
+    y = [f(list(r)) for r in p]
+
+    def colsums():
+        out = []
+        for j in range(n):
+            sm = 0.0
+            for i in range(m):
+                sm += p[i][j]
+            out.append(sm)
+        return out
+    psum = colsums()
+    nfunc = 0
+    heads = []
+
+    def amotry(ihi, fac):
+        fac1 = (1.0 - fac) / n
+        fac2 = fac1 - fac
+        ptry = [psum[j] * fac1 - p[ihi][j] * fac2 for j in range(n)]
+        ytry = f(list(ptry))
+        if ytry < y[ihi]:
+            y[ihi] = ytry
+            for j in range(n):
+                psum[j] += ptry[j] - p[ihi][j]
+                p[ihi][j] = ptry[j]
+        return ytry
+    while True:
+        ilo = 0
+        ihi, inhi = (0, 1) if y[0] > y[1] else (1, 0)
+        for i in range(m):
+            if y[i] <= y[ilo]:
+                ilo = i
+            if y[i] > y[ihi]:
+                inhi = ihi; ihi = i
+            elif y[i] > y[inhi] and i != ihi:
+                inhi = i
+        heads.append((y[ihi], y[ilo]))
+        rtol = 2.0 * abs(y[ihi] - y[ilo]) / (abs(y[ihi]) + abs(y[ilo]) + 1e-10)
+        if rtol < ftol or nfunc >= 5000 or len(heads) > maxit:
+            return heads
+        nfunc += 2
+        ytry = amotry(ihi, -1.0)
+        if ytry <= y[ilo]:
+            amotry(ihi, 2.0)
+        elif ytry >= y[inhi]:
+            ysave = y[ihi]
+            ytry = amotry(ihi, 0.5)
+            if ytry >= ysave:
+                for i in range(m):
+                    if i != ilo:
+                        for j in range(n):
+                            p[i][j] = psum[j] = 0.5 * (p[i][j] + p[ilo][j])
+                        y[i] = f(list(psum))
+                nfunc += n
+                psum = colsums()
+        else:
+            nfunc -= 1
+
+
+def gen_straddle(rng, n, R, ctx):
+    """convex bowls whose minimum VALUE is negative, the offset chosen so that at pass k of the run the highest and the
+    lowest vertex value are (to rounding) opposite numbers: offset = -(y_hi + y_lo)/2 of the simplex at the head of pass k
+    (k = 0: the start simplex).  There |y_hi| = |y_lo| while y_hi - y_lo is as large as it gets: the stopping rule must see
+    the DIFFERENCE of the values, not of their magnitudes."""
+    for i in range(n):
+        dim = 1 + i % 3
+        B, d, cond = gen_quadN(rng, dim)
+        while cond > 100:
+            B, d, cond = gen_quadN(rng, dim)
+        c = [rng.choice([0.0, dy(rng, -8, 8), rng.uniform(-3, 3)]) for _ in range(dim)]
+        start = [c[j] + rng.choice([1, -1]) * rng.uniform(0.5, 4) for j in range(dim)]
+        delta = rng.choice([1, -1]) * rng.uniform(0.3, 2)
+        pp = [list(start) for _ in range(dim + 1)]
+        for r in range(1, dim + 1):
+            pp[r][r - 1] = start[r - 1] + delta
+        ftol = 10.0 ** -rng.randint(3, 8)
+        prog0 = p_quadN(B, d, c, 0.0)
+        heads = nm_float(lambda x: ev_float(prog0, x), pp, ftol)
+        ks = [kk for kk in (0, 0, 1, 2, 3, 5, 8, 13) if kk < len(heads) - 1] or [0]
+        kk = rng.choice(ks)
+        off = -(heads[kk][0] + heads[kk][1]) / 2
+        prog = p_quadN(B, d, c, off)
+        # how the run with this offset meets the straddle (statistics only)
+        hit = any(2.0 * abs(abs(h) - abs(l)) / (abs(h) + abs(l) + 1e-10) < ftol <= 2.0 * abs(h - l) / (abs(h) + abs(l) + 1e-10)
+                  for h, l in nm_float(lambda x: ev_float(prog, x), pp, ftol))
+        bump(ctx, "straddle.forced" + (".hit" if hit else ".missed"))
+        meta = meta_tokens("quadN", c, off, extra={"cond": "%.3g" % cond}) + ["dim=%d" % dim, "straddle=%d" % kk, "hd=0", "od=0"]
+        if i % 2:
+            R.append(req_nd("c11.nm", ftol, "%d %s" % (len(pp), " ".join(lst(r) for r in pp)), prog, meta))
+        else:
+            R.append(req_nd("c11.nm1", ftol, "%s %s" % (lst(start), hx(delta)), prog, meta))
+
+
+def p_nested(n, m, c, a, b, w, off):
+    """g(x,t) = sum_j (x_j-c_j)^2 + sum_k w_k (t_k - (a_k.x + b_k))^2 + off over the variables x_0..x_{n-1}, t = x_n..x_{n+m-1}:
+    jointly convex; min over t is sum (x-c)^2 + off"""
+    p = []
+    for j in range(n):
+        p += ["x%d" % j, k(c[j]), "-", "sq"]
+        if j:
+            p.append("+")
+    for kk in range(m):
+        p += ["x%d" % (n + kk)]
+        first = True
+        for j in range(n):
+            p += ["x%d" % j, k(a[kk][j]), "*"]
+            if not first:
+                p.append("+")
+            first = False
+        p += [k(b[kk]), "+", "-", "sq", k(w[kk]), "*", "+"]
+    p += [k(off), "+"]
+    return p
+
+
+def gen_re(rng, n, R):
+    """re-entrant use: the outer objective F(x) = min_t g(x,t) is computed by an inner Minimization::minimize run inside
+    the callback (on an object of its own)"""
+    for i in range(n):
+        nd = 1 + i % 3
+        md = 1 + (i // 3) % 2
+        c = [dy(rng, -4, 4) for _ in range(nd)]
+        a = [[rng.choice([0.0, 0.5, -0.5, 1.0]) for _ in range(nd)] for _ in range(md)]
+        b = [dy(rng, -2, 2) for _ in range(md)]
+        w = [rng.choice([1.0, 2.0, 0.5]) for _ in range(md)]
+        off = rng.choice([0.0, 1.0, dy(rng, -4, 4)])
+        prog = p_nested(nd, md, c, a, b, w, off)
+        start = [c[j] + rng.choice([1, -1]) * rng.uniform(0.5, 2) for j in range(nd)]
+        t0 = [rng.uniform(-2, 2) for _ in range(md)]
+        R.append("c11.nmre %s %s %s %s %s %s %s %s" % (
+            hx(10.0 ** -rng.randint(3, 5)), lst(start), hx(rng.choice([1, -1]) * rng.uniform(0.3, 1.2)),
+            hx(10.0 ** -rng.randint(4, 6)), lst(t0), hx(rng.choice([1, -1]) * rng.uniform(0.3, 1.2)),
+            toklist(prog), toklist(meta_tokens("nested") + ["dim=%d" % nd, "inner=%d" % md])))
+
+
 def gen_multi(rng, n, R):
     """small multimodal objectives (sums of double wells): non-convex, so the shrink step occurs while the best vertex
     is not stored first - the descent / consistency clauses on 'arbitrary multimodal objectives'"""
@@ -616,11 +760,15 @@ def generate(tier, seed, ctx):
         gen_nd(rng, 900, R, ctx)
         gen_multi(rng, 400, R)
         gen_seq(rng, 8, 24, R)
+        gen_straddle(rng, 120, R, ctx)
+        gen_re(rng, 40, R)
     else:
         gen_1d(rng, 400, R, ctx)
         gen_nd(rng, 100, R, ctx)
         gen_multi(rng, 60, R)
         gen_seq(rng, 2, 5, R)
+        gen_straddle(rng, 24, R, ctx)
+        gen_re(rng, 6, R)
     ctx["results"] = {}
     ctx["groups"] = {}
     return R
@@ -866,6 +1014,8 @@ def compare(rq, impl, model, ctx):
     if op == "c11.nmseq":
         return compare_seq(R, rq, impl, model, ctx)
     bump(ctx, "class." + R["cls"])
+    if R.get("nested"):
+        bump(ctx, "c11.nmre")
     ti, tm = tag(impl), tag(model)
     ctx.setdefault("results", {})[rq] = impl
     if tm in ("bad-op", "bad-args", "driver-no-answer") or ti in ("bad-op", "bad-args", "harness-no-answer"):
@@ -881,7 +1031,7 @@ def compare(rq, impl, model, ctx):
             bump(ctx, "exit.diagnostic.model-agrees")
             ctx["nontrivial"].add((op, R["cls"], "exit"))
         elif tm == "ok":
-            bowl = R["cls"] in BOWL_1D + BOWL_ND
+            bowl = R["cls"] in BOWL_1D + BOWL_ND + ("nested",)
             out.append(fail("prop" if bowl else "corr",
                             "iteration-limit exit (diagnostic) on a request where the model converges", ""))
         return out
@@ -1019,11 +1169,31 @@ def parse_impl_nd(impl):
     tr = []
     for _ in range(n):
         tr.append(tuple(fl(v) for v in t[i:i + nd])); i += nd
-    return dict(nd=nd, pmin=pmin, fmin=fmin, nfunc=nfunc, y=y, rows=rows, fre=fre, yre=yre, tr=tr)
+    tv = None
+    if i < len(t):          # c11.nmre: the value the callback returned at every evaluation
+        nv = int(t[i]); i += 1
+        tv = [fl(v) for v in t[i:i + nv]]
+    return dict(nd=nd, pmin=pmin, fmin=fmin, nfunc=nfunc, y=y, rows=rows, fre=fre, yre=yre, tr=tr, tv=tv)
 
 
 def same(a, b):
     return a == b or (isinstance(a, float) and isinstance(b, float) and math.isnan(a) and math.isnan(b))
+
+
+CL_STOP = ("minimize: returns although the fractional spread 2|y_hi-y_lo|/(|y_hi|+|y_lo|+1e-10) of the reported vertex "
+           "values is not below ftol (stopping rule, theorem nm_exit_rule)")
+
+
+def stopping_rule(ftol, y):
+    """on return the highest and lowest reported vertex values satisfy the documented stopping rule; evaluated exactly,
+    with 2^-45 relative slack for the four roundings of the double computation"""
+    if not y or any(math.isnan(v) or math.isinf(v) for v in y) or math.isnan(ftol):
+        return None
+    yh, yl = Fraction(max(y)), Fraction(min(y))
+    rt = 2 * abs(yh - yl) / (abs(yh) + abs(yl) + Fraction(1e-10))
+    if rt > Fraction(ftol) * (1 + Fraction(1, 2 ** 45)):
+        return "y_hi=%r y_lo=%r: spread %.3g, ftol %.3g" % (max(y), min(y), sf(rt), ftol)
+    return None
 
 
 def oracle_nd(R, impl, ctx, rq):
@@ -1031,9 +1201,11 @@ def oracle_nd(R, impl, ctx, rq):
     I = parse_impl_nd(impl)
     prog = R["prog"]
     name = "minimize"
-    fpy = ev_float(prog, I["pmin"])
-    if not same(fpy, I["fre"]):
-        out.append(fail("corr", "objective interpreters of harness and comparator disagree", "%r vs %r" % (I["fre"], fpy)))
+    nested = bool(R.get("nested"))
+    if not nested:
+        fpy = ev_float(prog, I["pmin"])
+        if not same(fpy, I["fre"]):
+            out.append(fail("corr", "objective interpreters of harness and comparator disagree", "%r vs %r" % (I["fre"], fpy)))
     if not same(I["fmin"], I["fre"]):
         out.append(fail("prop", name + ": fmin is not the objective at the returned point", "fmin=%r f(pmin)=%r" % (I["fmin"], I["fre"])))
     if any(not same(a, b) for a, b in zip(I["y"], I["yre"])):
@@ -1045,8 +1217,15 @@ def oracle_nd(R, impl, ctx, rq):
         out.append(fail("prop", name + ": fmin is not y[0]", "%r vs %r" % (I["fmin"], I["y"][0])))
     if any(v < I["y"][0] for v in I["y"]):
         out.append(fail("prop", name + ": reported simplex is not best-first", "y=%r" % (I["y"][:8],)))
+    msg = stopping_rule(R["ftol"], I["y"])
+    if msg:
+        out.append(fail("prop", CL_STOP, msg))
     pp = simplex_of(R)
-    vals = [ev_float(prog, r) for r in pp]
+    # nested objective (re-entrant use): the values are those the callback itself returned
+    vals = (I["tv"] or [])[:len(pp)] if nested else [ev_float(prog, r) for r in pp]
+    if nested and (I["tv"] is None or len(I["tv"]) != len(I["tr"]) or len(vals) < len(pp)):
+        out.append(fail("corr", "protocol: values of the nested objective missing", ""))
+        vals = [math.nan]
     if not any(math.isnan(v) for v in vals + [I["fre"]]):
         if not (I["fre"] <= min(vals)):
             out.append(fail("prop", name + ": result is worse than the best vertex of the initial simplex",
@@ -1054,7 +1233,7 @@ def oracle_nd(R, impl, ctx, rq):
         # overloads build the documented simplex: the first evaluations are its vertices in order
         if [tuple(r) for r in pp] != list(I["tr"][:len(pp)]):
             out.append(fail("prop", name + ": the overload does not start from the documented initial simplex", ""))
-        allv = [ev_float(prog, list(u)) for u in I["tr"]]
+        allv = list(I["tv"]) if nested else [ev_float(prog, list(u)) for u in I["tr"]]
         if allv and not any(math.isnan(v) for v in allv) and I["fre"] > min(allv):
             # a better point was seen but lost: legal only through the shrink step (vertices other than the best are
             # replaced) - the best vertex itself must never be lost
@@ -1102,7 +1281,7 @@ def corr_nd(R, impl, model, ctx):
                 out.append(fail("corr", "returned point / simplex differs from the model although the traces are identical", ""))
             if I["y"] != y or I["fmin"] != fmin:
                 out.append(fail("corr", "reported values differ from the model although the traces are identical", ""))
-    elif not fs:
+    elif not fs and not R.get("nested"):
         vi, ei = ev_exact(R["prog"], I["pmin"]); vm, em = ev_exact(R["prog"], pmin)
         if vi is not None and vm is not None:
             allow = Fraction(KCONV_ND) * Fraction(R["ftol"]) * (abs(vi) + abs(vm) + Fraction(1, 10 ** 10)) + 64 * (ei + em)
